@@ -27,10 +27,23 @@ model above takes "the DDL of a transaction stays private until COMMIT" for gran
 containers, under the extracted fact that `cloneTable` rebuilds EVERY container-typed field of `Table`
 (`clone_rebuilds_every_container`, `clone_facts_match_code`): `uncommitted_ddl_leaves_cached_catalog_untouched`; a single
 shared container breaks it (`shared_container_leaks_uncommitted_ddl`).
+
+Fourth model (added for seeded change c13-c): ImmuModel/Sql/Sessions.lean (namespace `Mv`, built for C12) — concurrent SQL
+sessions with per-index snapshots, the MVCC read-set of the constraint checks and COMMIT = `checkPreconditions` (`probeOK`)
++ apply the write-set.  Isolation of WRITERS OF THE SAME UNIQUE TUPLE: `overlapping_unique_writers_second_commit_conflicts`
+(a live entry under a written unique prefix makes the COMMIT fail, store unchanged),
+`overlapping_unique_writers_never_both_commit_partial` (of two open transactions that wrote the same unique tuple, once one
+commits the other's COMMIT is a read conflict — side conditions: each key written once, no deleted entry under the prefix,
+finding R2), atomicity: `failed_commit_leaves_no_trace`, `rollback_leaves_no_trace`, `uncommitted_statements_invisible`,
+`committed_reads_valid_at_commit_point_partial`; witnesses `c13c_demo_second_committer_conflicts`,
+`c13c_demo_symmetric_order`, `c13c_demo_multi_column_unique`, necessity `isolation_needs_routing_by_probed_prefix`.  The model validates a "nothing under this prefix" read on the
+index THE PROBE was made on; `readset_routing_facts_match_code` pins that routing to the guards of `checkPreconditions`.
+Full commit-order serializability of the statement fragment is NOT proved (see the comment at the end of that section).
 -/
 import ImmuModel.Sql.Proofs.TxProgMain
 import ImmuModel.Sql.Proofs.CatalogCacheMain
 import ImmuModel.Sql.Proofs.CatalogCloneMain
+import ImmuModel.Sql.Proofs.SessionsSer
 import ImmuModel.Gen.C13
 
 namespace ImmuModel.Props.C13
@@ -423,5 +436,221 @@ example :
   decide
 
 end CatalogClone
+
+-- ================================================================ Fourth model (added for seeded change c13-c): concurrent sessions, ImmuModel/Sql/Sessions.lean
+
+section ConcurrentSessions
+
+/-- **Of two overlapping transactions that write the same unique tuple the second committer fails, and its failed COMMIT
+leaves no trace.**  For EVERY schedule of BEGIN / statement / COMMIT / ROLLBACK events of any number of sessions: a session
+with an open transaction that has written rows and holds the transient entry `(idx, v)` of a UNIQUE index, whose COMMIT
+finds a live first entry under that prefix in the committed store (another transaction committed that tuple meanwhile), is
+answered `ErrTxReadConflict`, and the committed store is what it was.  (The "nothing under this prefix" read is in the
+read-set — `run_probed` — and `checkPreconditions` re-evaluates it on the index it was made on; the seeded change c13-c
+routes it by `expectedKey`, which is nil for such a read, so it is never re-evaluated.) -/
+theorem overlapping_unique_writers_second_commit_conflicts (sc : Schema) (evs : List Mv.Ev) (i idx : Nat)
+    (v : Bytes) (e : Mv.UEntry)
+    (ha : ((Mv.run sc {} evs).1.get i).active = true)
+    (hw : ((Mv.run sc {} evs).1.get i).wrows ≠ [])
+    (hu : (idx, v) ∈ ((Mv.run sc {} evs).1.get i).wuniq)
+    (hl : (Mv.run sc {} evs).1.st.pgetLive idx v = some e) :
+    (Mv.step sc (Mv.run sc {} evs).1 (.commit i)).2 = .err .readConflict ∧
+    (Mv.step sc (Mv.run sc {} evs).1 (.commit i)).1.st = (Mv.run sc {} evs).1.st := by
+  have hp := SessionsAux.run_probed sc evs {} SessionsAux.allProbed_init i (idx, v) hu
+  have hc := SessionsAux.commit_stale_probe sc _ _ idx v e hw hp hl
+  simp only [Mv.step, ha, hc]
+  exact ⟨rfl, rfl⟩
+
+/-- **No schedule commits two overlapping writers of the same unique tuple.**  For EVERY schedule and two different
+sessions `i`, `j` whose open transactions both hold the transient entry `(idx, v)` of a UNIQUE index (they wrote rows —
+under whatever primary keys — with the same unique value, both uniqueness lookups having found nothing): if COMMIT of `i`
+succeeds, then COMMIT of `j` in the resulting world is answered `ErrTxReadConflict` and changes nothing.  So the committed
+state of the c13-c demo (both rows live) is unreachable in the model.
+Side conditions (hence `_partial`): `hnd` — the write-set of `i` names every key once (the statements of the model
+refuse a second write to a key of the write-set — `outOfModel` — but UPDATE checks the key of the WHERE and writes under
+the key re-encoded from the row; that they coincide needs the store invariant "an entry's key is the encoding of its
+row", not proved); `hfresh` — the committed store holds NO entry, not even a deleted one, under the prefix: a deleted
+entry with a smaller primary key hides the new one from `GetWithPrefix` (finding R2, C12 `unique_violated_after_delete`)
+and then BOTH commit, in the model and in the code. -/
+theorem overlapping_unique_writers_never_both_commit_partial (sc : Schema) (evs : List Mv.Ev) (i j idx n : Nat)
+    (v : Bytes) (hij : i ≠ j)
+    (haj : ((Mv.run sc {} evs).1.get j).active = true)
+    (hui : (idx, v) ∈ ((Mv.run sc {} evs).1.get i).wuniq)
+    (huj : (idx, v) ∈ ((Mv.run sc {} evs).1.get j).wuniq)
+    (hnd : (((Mv.run sc {} evs).1.get i).wrows.map (·.1)).Nodup)
+    (hfresh : (Mv.run sc {} evs).1.st.firstU idx v = none)
+    (hci : (Mv.step sc (Mv.run sc {} evs).1 (.commit i)).2 = .ok n) :
+    (Mv.step sc (Mv.step sc (Mv.run sc {} evs).1 (.commit i)).1 (.commit j)).2 = .err .readConflict ∧
+    (Mv.step sc (Mv.step sc (Mv.run sc {} evs).1 (.commit i)).1 (.commit j)).1.st =
+      (Mv.step sc (Mv.run sc {} evs).1 (.commit i)).1.st := by
+  have hlink := Mv.SerAux.run_linked sc evs {} (Mv.SerAux.allLinked_init sc)
+  have hprob := SessionsAux.run_probed sc evs {} SessionsAux.allProbed_init
+  obtain ⟨_, st', hc, hst⟩ := Mv.SerAux.step_commit_ok hci
+  obtain ⟨e, hlive⟩ := Mv.SerAux.commit_makes_unique_live (hlink i) hui hnd hfresh hc
+  have hj := Mv.SerAux.step_commit_others sc (Mv.run sc {} evs).1 i j hij
+  obtain ⟨_, _, _, hm, _⟩ := hlink j (idx, v) huj
+  have hwj : ((Mv.run sc {} evs).1.get j).wrows ≠ [] := by intro h; rw [h] at hm; cases hm
+  have hcj := SessionsAux.commit_stale_probe sc st' _ idx v e hwj (hprob j (idx, v) huj) hlive
+  generalize Mv.step sc (Mv.run sc {} evs).1 (.commit i) = r at hst hj ⊢
+  rw [← hst] at hcj
+  simp only [Mv.step, hj, haj, hcj]
+  exact ⟨rfl, rfl⟩
+/- Full statement (NOT proved; FALSE without `hfresh` because of finding R2): the same without `hnd` and with
+   `hfresh` weakened to "no deleted entry under the prefix"; and its extension over arbitrary events between the two
+   COMMITs (covered only through `overlapping_unique_writers_second_commit_conflicts`: whenever `j` commits while a live
+   first entry is under the prefix). -/
+
+/-- **A failed COMMIT leaves no trace**, whatever the world (so after every schedule): the committed store is unchanged,
+the other sessions are untouched, and the session has no open transaction any more. -/
+theorem failed_commit_leaves_no_trace (sc : Schema) (w : Mv.World) (i : Nat) (e : Mv.MvErr)
+    (h : (Mv.step sc w (.commit i)).2 = .err e) :
+    (Mv.step sc w (.commit i)).1.st = w.st ∧
+    (∀ j, i ≠ j → (Mv.step sc w (.commit i)).1.get j = w.get j) ∧
+    ((Mv.step sc w (.commit i)).1.get i).active = false := by
+  refine ⟨Mv.SerAux.step_commit_err_st sc w i e h, fun j hij => Mv.SerAux.step_commit_others sc w i j hij, ?_⟩
+  by_cases ha : (w.get i).active = true
+  · cases hc : Mv.commit sc w.st (w.get i) with
+    | ok st' => simp [Mv.step, ha, hc] at h
+    | error e' => simp [Mv.step, ha, hc, SessionsAux.get_set]
+  · have ha' : (w.get i).active = false := by simpa using ha
+    simp [Mv.step, ha']
+
+/-- **ROLLBACK leaves no trace**: committed store and other sessions untouched, the session's transaction is gone. -/
+theorem rollback_leaves_no_trace (sc : Schema) (w : Mv.World) (i : Nat) :
+    (Mv.step sc w (.rollback i)).1.st = w.st ∧
+    (∀ j, i ≠ j → (Mv.step sc w (.rollback i)).1.get j = w.get j) ∧
+    ((Mv.step sc w (.rollback i)).1.get i).active = false ∧
+    ((Mv.step sc w (.rollback i)).1.get i).wrows = [] := by
+  refine ⟨rfl, fun j hij => ?_, ?_, ?_⟩
+  · simp only [Mv.step]; rw [SessionsAux.get_set]; simp [hij]
+  · simp only [Mv.step]; rw [SessionsAux.get_set]; simp
+  · simp only [Mv.step]; rw [SessionsAux.get_set]; simp
+
+/-- **Nothing but COMMIT changes what others see**: BEGIN, statements (successful or failing) and ROLLBACK of any session
+leave the committed store — what every snapshot taken later contains — unchanged. -/
+theorem uncommitted_statements_invisible (sc : Schema) (w : Mv.World) (e : Mv.Ev) (h : ∀ i, e ≠ .commit i) :
+    (Mv.step sc w e).1.st = w.st :=
+  Mv.SerAux.step_noncommit_st sc w e h
+
+/-- **The reads of a committed transaction are valid at its commit point**: if COMMIT of a transaction with a non-empty
+write-set succeeds, every read it recorded (primary-key existence, "nothing under this unique prefix", the row readers
+of UPDATE / DELETE / UPSERT, `loadMaxPK`) re-evaluates on the committed store AS OF THE COMMIT to what the transaction
+saw on its snapshots. -/
+theorem committed_reads_valid_at_commit_point_partial (sc : Schema) (w : Mv.World) (i n : Nat)
+    (hw : (w.get i).wrows ≠ []) (h : (Mv.step sc w (.commit i)).2 = .ok n) :
+    ∀ p ∈ (w.get i).probes, Mv.probeOK w.st p = true := by
+  obtain ⟨_, st', hc, _⟩ := Mv.SerAux.step_commit_ok h
+  have hv := (Mv.SerAux.commit_ok_apply hw hc).1
+  unfold Mv.validate at hv
+  exact List.all_eq_true.1 hv
+/- NOT proved: the full C13 statement for this model, "the committed outcome of every schedule equals that of executing the
+   COMMITTED transactions alone, one after the other, in commit order": for every committed transaction, each statement
+   outcome (affected rows / error class) and the write-set equal those of re-executing its statements on the store as of
+   its commit point.  What is missing: (1) a determinacy lemma "`execStmt` on two snapshots that agree on every recorded
+   probe yields the same session up to snapshots" — every branch of `insOne` / `updOne` / `delOne` / `chkIdx` would have to
+   be shown to depend on the snapshots ONLY through the probes it records (true by inspection for `tx.get` and
+   `getWithPrefix`; the row reader records the raw entry's version, not the row, so it additionally needs "same version ⇒
+   same row", a store invariant); (2) per-index snapshots acquired at first use are DIFFERENT stores, so the serial
+   re-execution has to be compared with a mixed snapshot; (3) a transaction with an empty write-set commits without
+   validation (it is serialised at its snapshot, not at its commit point).  `committed_reads_valid_at_commit_point_partial`
+   is the half that needs none of these. -/
+
+/-- **The routing the model assumes is the routing of the code** (regenerated from `embedded/store/ongoing_tx.go` by
+`extract/c13.go` at every run).  `checkPreconditions` validates the read-set once per index snapshot `txSnap`; each of
+its three loops starts with `if <guard> { continue }`, and the guard compares the prefix of WHAT WAS READ — the key of an
+`expectedGet`, the PREFIX of an `expectedGetWithPrefix`, the reader's prefix — with the snapshot's index prefix.  This is
+what `Mv.probeOK` does when it evaluates `pget idx v …` on the index `idx` the probe was made on.  An edit of a guard
+(the seeded change c13-c makes the second one `!hasPrefix(e.expectedKey, txSnap.prefix)`: a "found nothing" expectation has
+no expected key and is then re-validated on NO index) breaks this theorem. -/
+theorem readset_routing_facts_match_code :
+    Gen.C13.readSetRoutingGuards =
+      [("expectedGets", "!hasPrefix(e.key, txSnap.prefix)"),
+       ("expectedGetsWithPrefix", "!hasPrefix(e.prefix, txSnap.prefix)"),
+       ("expectedReaders", "!hasPrefix(eReader.spec.Prefix, txSnap.prefix)")] := by
+  decide
+
+def wSchemaQ : Schema :=
+  { cols := [{ col := ⟨.integer, 8⟩, notNull := false, autoInc := false },
+             { col := ⟨.integer, 8⟩, notNull := false, autoInc := false }],
+    pk := [0], idx := [(true, [1])], check := none }
+
+/-- the schedule of the c13-c demo: `t(id PRIMARY KEY, u UNIQUE)`; S0 BEGIN, S1 BEGIN, S0 INSERT (10, 7), S1 INSERT (20, 7),
+then the two COMMITs -/
+def wDemo (first second : Nat) : List Mv.Ev :=
+  [.begin 0, .begin 1,
+   .stmt 0 (.ins .insert [0, 1] [[.int 10, .int 7]]),
+   .stmt 1 (.ins .insert [0, 1] [[.int 20, .int 7]]),
+   .commit first, .commit second]
+
+/-- **The c13-c demo on the model of the code as it is**: S0 commits, S1's COMMIT is a read conflict, only row 10 is
+committed (under the seeded change both COMMITs succeed and rows 10 and 20 share the UNIQUE value). -/
+theorem c13c_demo_second_committer_conflicts :
+    (Mv.run wSchemaQ {} (wDemo 0 1)).1.st.rows = [[.int 10, .int 7]] ∧
+    (∃ w' : Mv.World, Mv.run wSchemaQ {} (wDemo 0 1) =
+      (w', [.ok 0, .ok 0, .ok 1, .ok 1, .ok 1, .err .readConflict])) := by
+  constructor
+  · rfl
+  · exact ⟨_, rfl⟩
+
+/-- the symmetric commit order: S1 commits first, S0 gets the conflict, only row 20 is committed -/
+theorem c13c_demo_symmetric_order :
+    (Mv.run wSchemaQ {} (wDemo 1 0)).1.st.rows = [[.int 20, .int 7]] ∧
+    (∃ w' : Mv.World, Mv.run wSchemaQ {} (wDemo 1 0) =
+      (w', [.ok 0, .ok 0, .ok 1, .ok 1, .ok 1, .err .readConflict])) := by
+  constructor
+  · rfl
+  · exact ⟨_, rfl⟩
+
+/-- **Routing by the probed prefix is necessary** (what the seeded change c13-c does): with the second loop of
+`checkPreconditions` routed by the EXPECTED KEY (`Mv.SerAux.commitByExpectedKey`: a "nothing under this prefix" read has no
+expected key and is validated on no index), the second COMMIT of the demo succeeds and two live rows share the UNIQUE
+value; `Mv.commit` (the code as it is) refuses it. -/
+theorem isolation_needs_routing_by_probed_prefix :
+    (∃ st', Mv.SerAux.commitByExpectedKey wSchemaQ (Mv.run wSchemaQ {} ((wDemo 0 1).take 5)).1.st
+        ((Mv.run wSchemaQ {} ((wDemo 0 1).take 5)).1.get 1) = .ok st' ∧
+      st'.rows = [[.int 10, .int 7], [.int 20, .int 7]]) ∧
+    (∃ e, Mv.commit wSchemaQ (Mv.run wSchemaQ {} ((wDemo 0 1).take 5)).1.st
+        ((Mv.run wSchemaQ {} ((wDemo 0 1).take 5)).1.get 1) = .error e ∧
+      (match e with | .readConflict => true | _ => false) = true) :=
+  ⟨⟨_, rfl, rfl⟩, ⟨_, rfl, rfl⟩⟩
+
+def wSchemaQ2 : Schema :=
+  { cols := [{ col := ⟨.integer, 8⟩, notNull := false, autoInc := false },
+             { col := ⟨.integer, 8⟩, notNull := false, autoInc := false },
+             { col := ⟨.integer, 8⟩, notNull := false, autoInc := false }],
+    pk := [0], idx := [(true, [1, 2])], check := none }
+
+/-- the same with a two-column `UNIQUE(a, b)`: equal pairs conflict, a pair differing in one column commits -/
+theorem c13c_demo_multi_column_unique :
+    (∃ w' : Mv.World, Mv.run wSchemaQ2 {}
+      [.begin 0, .begin 1, .begin 2,
+       .stmt 0 (.ins .insert [0, 1, 2] [[.int 10, .int 7, .int 8]]),
+       .stmt 1 (.ins .insert [0, 1, 2] [[.int 20, .int 7, .int 8]]),
+       .stmt 2 (.ins .insert [0, 1, 2] [[.int 30, .int 7, .int 9]]),
+       .commit 0, .commit 1, .commit 2] =
+      (w', [.ok 0, .ok 0, .ok 0, .ok 1, .ok 1, .ok 1, .ok 1, .err .readConflict, .ok 1]) ∧
+      w'.st.rows = [[.int 10, .int 7, .int 8], [.int 30, .int 7, .int 9]]) :=
+  ⟨_, rfl, rfl⟩
+
+/-- non-vacuity of `overlapping_unique_writers_never_both_commit_partial` (and of
+`overlapping_unique_writers_second_commit_conflicts`, `committed_reads_valid_at_commit_point_partial`): after the first
+four events of the demo, sessions 0 and 1 satisfy every hypothesis for the unique tuple `(index 0, enc 7)`, and COMMIT of
+session 0 answers ok. -/
+example :
+    (0 : Nat) ≠ 1 ∧
+    ((Mv.run wSchemaQ {} ((wDemo 0 1).take 4)).1.get 1).active = true ∧
+    (0, [128, 128, 0, 0, 0, 0, 0, 0, 7]) ∈ ((Mv.run wSchemaQ {} ((wDemo 0 1).take 4)).1.get 0).wuniq ∧
+    (0, [128, 128, 0, 0, 0, 0, 0, 0, 7]) ∈ ((Mv.run wSchemaQ {} ((wDemo 0 1).take 4)).1.get 1).wuniq ∧
+    (((Mv.run wSchemaQ {} ((wDemo 0 1).take 4)).1.get 0).wrows.map (·.1)).Nodup ∧
+    (Mv.run wSchemaQ {} ((wDemo 0 1).take 4)).1.st.firstU 0 [128, 128, 0, 0, 0, 0, 0, 0, 7] = none ∧
+    (Mv.step wSchemaQ (Mv.run wSchemaQ {} ((wDemo 0 1).take 4)).1 (.commit 0)).2 = .ok 1 ∧
+    ((Mv.run wSchemaQ {} ((wDemo 0 1).take 4)).1.get 0).wrows ≠ [] ∧
+    (∃ e, (Mv.run wSchemaQ {} ((wDemo 0 1).take 5)).1.st.pgetLive 0 [128, 128, 0, 0, 0, 0, 0, 0, 7] = some e) :=
+  ⟨by decide, rfl, by decide, by decide, by decide, rfl, rfl, by decide, _, rfl⟩
+
+/-- non-vacuity of `failed_commit_leaves_no_trace`: the second COMMIT of the demo fails -/
+example : (Mv.step wSchemaQ (Mv.run wSchemaQ {} ((wDemo 0 1).take 5)).1 (.commit 1)).2 = .err .readConflict := rfl
+
+end ConcurrentSessions
 
 end ImmuModel.Props.C13
